@@ -50,8 +50,15 @@ def generate(rng, tier, shard, nshards):
                 kw[k] = gens.logu(rng, lo, hi) if rng.random() < 0.8 else 0.0
             if all(kw[k] == 0.0 for k in ("gyr_noise", "acc_noise", "mag_noise")):
                 kw["acc_noise"] = 0.01
+            if (i // 4) % 3 == 2:        # per-axis noise levels (arrays), some axes noiseless
+                for k, lo, hi in (("gyr_noise", 1e-3, 5.0), ("acc_noise", 1e-4, 0.5), ("mag_noise", 1e-2, 500.0)):
+                    arr = np.array([gens.logu(rng, lo, hi) for _ in range(3)])
+                    arr[rng.random(3) < 0.4] = 0.0
+                    if not np.any(arr):
+                        arr[int(rng.integers(3))] = gens.logu(rng, lo, hi)
+                    kw[k] = arr
             for k in ("gyr_noise", "acc_noise", "mag_noise"):     # library defaults are part of the space
-                if rng.random() < 0.3:
+                if rng.random() < 0.3 and k in kw and np.ndim(kw[k]) == 0:
                     del kw[k]
             N = max(N, 300)
         else:
@@ -141,17 +148,37 @@ def judge(ctx, s, p, kw):
     acc = np.array(s.accelerometers, float)
     mag = np.array(s.magnetometers, float)
     an, mn, gn = (kw.get(k, "default") for k in ("acc_noise", "mag_noise", "gyr_noise"))
-    if an == "default":
+    if isinstance(an, str):
         an = float(s.acc_noise)
         ctx.ok("default acc_noise is a positive number", np.isfinite(an) and an > 0)
-    if mn == "default":
+    if isinstance(mn, str):
         mn = float(s.mag_noise) if s.mag_noise is not None else float("nan")
         ctx.ok("default mag_noise is a positive number", np.isfinite(mn) and mn > 0, {"reported": s.mag_noise})
     if isinstance(gn, str):
         gn = np.asarray(s.gyr_noise, float)
         ctx.ok("default gyr_noise is positive", bool(np.all(np.isfinite(gn)) and np.all(gn > 0)))
+    # --- per-axis noise levels given as arrays: each axis is judged on its own (exact where the level is 0)
+    def per_axis(name, data, expect, level, scale):
+        level = np.asarray(level, float)
+        ctx.ok("reported %s_noise is the one requested" % name, np.array_equal(np.asarray(getattr(s, name + "_noise"), float), level), {"reported": getattr(s, name + "_noise"), "requested": level})
+        sd_ = (data - expect).std(axis=0)
+        lo_, hi_ = chi_bounds(N)
+        for ax_ in range(3):
+            if level[ax_] == 0.0:
+                ctx.le("%s axis with noise level 0 is exact" % name, float(np.abs(data[:, ax_] - expect[:, ax_]).max() / scale), 1e-13, {"axis": ax_})
+            else:
+                ctx.ok("empirical %s noise of each axis matches its reported level" % name, bool(lo_ <= sd_[ax_] / level[ax_] <= hi_), {"axis": ax_, "empirical": float(sd_[ax_]), "reported": float(level[ax_]), "bounds": [lo_, hi_]})
+    if np.ndim(an) == 1:
+        per_axis("acc", acc, acc_exp, an, np.linalg.norm(g_ref))
+        an = None
+    if np.ndim(mn) == 1:
+        if not kw.get("normalized_mag"):
+            per_axis("mag", mag, mag_exp, mn, np.linalg.norm(m_ref))
+        mn = None
     # --- accelerometer
-    if an == 0.0:
+    if an is None:
+        pass
+    elif an == 0.0:
         ctx.le("acc_noise = 0: accelerometers[i] = R_i^T g_ref exactly", np.abs(acc - acc_exp).max() / np.linalg.norm(g_ref), 1e-13)
         ctx.ok("reported acc_noise is the one requested", float(s.acc_noise) == 0.0, {"reported": float(s.acc_noise)})
     else:
@@ -161,7 +188,9 @@ def judge(ctx, s, p, kw):
         ctx.ok("empirical accelerometer noise matches the reported acc_noise", lo <= sd / float(s.acc_noise) <= hi, {"empirical": sd, "reported": float(s.acc_noise), "bounds": [lo, hi]})
     # --- magnetometer
     norm_mag = bool(kw.get("normalized_mag"))
-    if mn == 0.0:
+    if mn is None:
+        pass
+    elif mn == 0.0:
         exp = mag_exp / np.linalg.norm(mag_exp, axis=1, keepdims=True) if norm_mag else mag_exp
         sc = 1.0 if norm_mag else np.linalg.norm(m_ref)
         ctx.ok("reported mag_noise is the one requested (0)", float(s.mag_noise) == 0.0, {"reported": float(s.mag_noise), "requested": 0.0})
@@ -183,7 +212,9 @@ def judge(ctx, s, p, kw):
         exp2 = np.array([R[i].T @ refv for i in range(N)])
         if norm_mag:
             exp2 = exp2 / np.linalg.norm(exp2, axis=1, keepdims=True)
-        if mn == 0.0:
+        if mn is None:
+            pass
+        elif mn == 0.0:
             ctx.le("mag_noise = 0: magnetometers%s[i] = R_i^T reference_magnetic_vector%s" % (suf, suf), np.abs(arr - exp2).max() / max(np.abs(exp2).max(), 1e-300), 1e-13,
                    {"reference": refv}, route=None)
         elif not norm_mag:
@@ -225,6 +256,9 @@ def judge(ctx, s, p, kw):
         sd = resid.std(axis=0)
         lo, hi = chi_bounds(N)
         ctx.ok("reported gyr_noise is the one requested", np.array_equal(np.broadcast_to(np.asarray(s.gyr_noise, float), (3,)), gnv), {"reported": s.gyr_noise, "requested": gn})
-        ctx.ok("empirical gyroscope noise matches gyr_noise scaled to the data units (per axis)", bool(np.all((lo <= sd / (gnv * unit)) & (sd / (gnv * unit) <= hi))),
+        nz = gnv > 0
+        ctx.ok("empirical gyroscope noise matches gyr_noise scaled to the data units (per axis)", bool(np.all((lo <= sd[nz] / (gnv[nz] * unit)) & (sd[nz] / (gnv[nz] * unit) <= hi))),
                {"empirical": sd, "expected": gnv * unit, "bounds": [lo, hi]})
-        ctx.le("mean gyroscope offset equals the reported bias (within noise)", float(np.max(np.abs(resid.mean(axis=0)) / (6.0 * gnv * unit / np.sqrt(N) + 1e-12))), 1.0)
+        if (~nz).any():
+            ctx.le("gyroscope axis with noise level 0: data - true rate is exactly the constant bias", float(np.abs(resid[:, ~nz]).max() / max(np.abs(true_rate).max(), 1e-6)), 1e-12, {"axes": np.where(~nz)[0]})
+        ctx.le("mean gyroscope offset equals the reported bias (within noise)", float(np.max(np.abs(resid.mean(axis=0)) / (6.0 * gnv * unit / np.sqrt(N) + 1e-9 * max(np.abs(true_rate).max(), 1e-6)))), 1.0)
